@@ -91,8 +91,13 @@ func CloneTo[T any](maybeSelf MaybeDef[T], dest T) MaybeDef[T] {
 		y := reflect.New(starX.Type())
 		starY := y.Elem()
 		starY.Set(starX)
-		reflect.ValueOf(dest).Elem().Set(y.Elem())
-		return JustGenerics(dest)
+		destValue := reflect.ValueOf(dest)
+		if destValue.Kind() == reflect.Ptr && !destValue.IsNil() {
+			destValue.Elem().Set(y.Elem())
+			return JustGenerics(dest)
+		}
+		// No (usable) destination given: the fresh copy is the target
+		return JustGenerics(y.Interface().(T))
 	}
 	dest = x.Interface().(T)
 
@@ -128,7 +133,7 @@ func (maybeSelf someDef[T]) ToString() string {
 
 // ToPtr Maybe to Ptr
 func (maybeSelf someDef[T]) ToPtr() *T {
-	if maybeSelf.IsPtr() {
+	if maybeSelf.IsPtr() && !maybeSelf.IsNil() {
 		val := reflect.Indirect(reflect.ValueOf(maybeSelf.ref)).Interface()
 		switch val.(type) {
 		case *T:
@@ -154,6 +159,9 @@ func (maybeSelf someDef[T]) ToMaybe() MaybeDef[T] {
 		return maybeSelf
 	case someDef[T]:
 		return (ref).(someDef[T])
+	case MaybeDef[T]:
+		// e.g. None
+		return (ref).(MaybeDef[T])
 	}
 }
 
